@@ -39,7 +39,8 @@ Put(s, r, v) == [s EXCEPT !.reqs = [x \in (DOMAIN s.reqs) \cup {r} |-> IF x = r 
 Start(s, r, kind, dst, t) == Put(s, r, NewReq(kind, dst, t))
 
 (* a set-up command for target x reaches the NCP: no other target's block may be open *)
-SetupOk(s, x) == s.setup \in {0 - 1, x}
+SetupOk(s, x) == /\ s.setup \in {0 - 1, x}
+                 /\ \E r \in DOMAIN s.reqs : s.reqs[r].dst = x /\ s.reqs[r].st # "finished"     \* on behalf of a request still in progress
 Setup(s, x) == [Touch(s, x) EXCEPT !.setup = x]
 
 (* the enqueue command of request r reaches the NCP (tag as seen on the wire), answered with class `ans` at time t *)
@@ -90,7 +91,9 @@ FinishOk(s, r, o, t) ==
               /\ t = q.tAcc + s.ct                                  \* no confirmation within the timeout
          [] o = "CancelledError" -> q.canc
          [] OTHER -> FALSE
-Finish(s, r) == Put(s, r, [s.reqs[r] EXCEPT !.st = "finished"])
+(* a request that ends inside its own set-up block (cancelled between two set-up commands, set-up command failing) takes the block with it: *)
+(* nothing of it may follow                                                                                                                *)
+Finish(s, r) == [Put(s, r, [s.reqs[r] EXCEPT !.st = "finished"]) EXCEPT !.setup = IF s.setup = s.reqs[r].dst THEN 0 - 1 ELSE s.setup]
 
 (* a request whose outcome is decided must end promptly: an accepted multicast / broadcast at once, a unicast when its *)
 (* confirmation has arrived, a refusal at once                                                                         *)
